@@ -558,7 +558,15 @@ func (ie IndexExpression) PrettyPrint(out *PrintState) *PrintState {
 	if needParen {
 		out.Print("(")
 	}
+	// (1).key: without the parentheses the lexer would read the float `1.`
+	numberDot := ie.Token.Type() == token.DOT && (ie.Left.Value().Type() == token.INT || ie.Left.Value().Type() == token.FLOAT)
+	if numberDot {
+		out.Print("(")
+	}
 	ie.Left.PrettyPrint(out)
+	if numberDot {
+		out.Print(")")
+	}
 	out.Print(ie.Literal())
 	out.ExpressionPrecedence = LOWEST
 	ie.Index.PrettyPrint(out)
